@@ -114,5 +114,14 @@ func (c MQTT) Validate() error {
 	if c.MaxQueuedMsg < int(c.MaxInflight) {
 		return fmt.Errorf("max_queued_message cannot be less than max_inflight")
 	}
+	if c.SessionExpiry < 0 {
+		return fmt.Errorf("session_expiry cannot be negative")
+	}
+	if c.MessageExpiry < 0 {
+		return fmt.Errorf("message_expiry cannot be negative")
+	}
+	if c.InflightExpiry < 0 {
+		return fmt.Errorf("inflight_expiry cannot be negative")
+	}
 	return nil
 }
